@@ -14,3 +14,8 @@ CHECKS = {
           'Axioms: none.',
  },
 }
+
+# per-property entries delivered by the property workers: harness/manifest/CNN.json = {"technique", "text", "note"}
+import glob as _glob, json as _json, os as _os
+for _f in sorted(_glob.glob(_os.path.join(_os.path.dirname(__file__), 'manifest', 'C*.json'))):
+    CHECKS[_os.path.basename(_f)[:-5]] = _json.load(open(_f))
